@@ -150,6 +150,15 @@ class Runtime:
             return [elt(x) for x in it]
         return [elt(x) for x in it if cond(x)]
 
+    def dictcomp(self, it, key, val, cond):
+        """T6d: a symbolic collection answers through `_vc_dictcomp`; for an ordinary iterable this IS the dict comprehension"""
+        f = getattr(it, '_vc_dictcomp', None)
+        if f is not None:
+            return f(key, val, cond)
+        if cond is None:
+            return {key(x): val(x) for x in it}
+        return {key(x): val(x) for x in it if cond(x)}
+
     def listcomp_star(self, it, elt, cond):
         """T6 with a tuple target: elt / cond take the unpacked element"""
         return self.listcomp(it, lambda x: elt(*x), None if cond is None else (lambda x: cond(*x)))
@@ -297,6 +306,9 @@ def make_iter(iterable):
     f = getattr(iterable, '_vc_iter', None)
     if f is not None:
         return f()
+    if isinstance(iterable, range):         # a concrete range under a loop contract (some paths of a function have concrete bounds)
+        r = iterable
+        return SeqIter(z3.IntVal(len(r)), lambda i: SInt(z3.IntVal(r.start) + i * z3.IntVal(r.step)))
     raise OutOfSubset('loop contract over an iterable of type %s' % type(iterable).__name__)
 
 
@@ -365,7 +377,7 @@ class FunctionRun:
             self.loc = instrument.locate(c.target, self.repo)
             code, stats, text = instrument.instrument(self.loc, tuple(c.loops.keys()),
                                                       rebind={k: tuple(getattr(L, 'rebind', ())) for k, L in c.loops.items()},
-                                                      comprehensions=getattr(c, 'comprehensions', False))
+                                                      comprehensions=getattr(c, 'comprehensions', False), genexps=getattr(c, 'genexps', False))
             self.stats = stats
             self.text = text
         except OutOfSubset as e:
